@@ -270,14 +270,17 @@ PROPS["C30"].update({
     "title": "Bulk load equals transactional load",
     "level_text": "Bounded model checking (Kani/CBMC): the segment shapes BulkLoader::build_segments emits (edge-free; one edge) satisfy "
                   "the same read-kernel obligations as compacted segments (no panic on any node id, incoming/outgoing exactly the "
-                  "stored edges after persist). Partial and thin: segment shape safety only.",
-    "outside_claim": ["labels, properties, statistics, WAL manifest, query equality between bulk-loaded and transactional databases"],
+                  "stored edges after persist); plus path-wise symbolic execution (z3) of the list construction in build_segments: "
+                  "every one of 1..3 input relationships (symbolic, possibly coinciding endpoints and types) reaches the segment builder, i.e. "
+                  "parallel relationships stay a multiset as on the transactional path. Partial and thin.",
+    "outside_claim": ["labels, properties, statistics, WAL manifest, query equality between bulk-loaded and transactional databases",
+                      "build_segments after the sort (grouping into offsets): covered only through the segment shapes above"],
     "design_ref": "DESIGN.md section 3, C30",
 })
 # C05-O2 (E2): what compaction keeps vs what reads return (added after the copy above so that C30 does not inherit it)
 PROPS["C05"] = dict(PROPS["C05"])
 PROPS["C05"]["e2"] = ["neighbors", "csr"]
-PROPS["C30"]["e2"] = ["csr"]
+PROPS["C30"]["e2"] = ["csr", "bulk"]
 for _p in ("C05", "C30"):
     PROPS[_p]["functions_encoded"] = PROPS[_p]["functions_encoded"] + ["E2: csr::CsrSegment::{persist (reverse index), neighbors, incoming_neighbors} + closures "
                                                                        "on segments of <= 3 sources / <= 4 relationships"]
